@@ -1,7 +1,7 @@
 (* Case checker for C03 (lines break only where breaking is allowed): same cases and correspondence as
    Check/C02.v; kind 3 = the C03 oracle (check_break_positions) fails on the implementation's output;
-   kind 11 = it fails only because the truncated (k-th) line, which carries the truncator, ends at the
-   boundary between two input runs that is not a permitted break (known finding F8);
+   (kind 11, the truncated line ending at a boundary between two input runs - finding F8 - is repaired in the library
+   and no longer classified: it would be reported as kind 3);
    kind 12 = it fails only on lines that contain a UAX #14 opportunity which is not a grapheme cluster boundary (F22). *)
 From TV Require Export Check.C02.
 
@@ -18,11 +18,6 @@ Fixpoint c03_failing (attrs : list Z) (st0 : store) (rs : list out) (n tsrc pdir
       (if check_lines_c03 attrs st0 rs n pdir policy trunc_k (measurable_runs st0 rs) i [(pos, e)] widths then [] else [(i, pos, e, l)])
       ++ c03_failing attrs st0 rs n tsrc pdir policy trunc_k (i + 1) e rest (tl widths)
   end.
-
-Definition f8_line (attrs : list Z) (st0 : store) (rs : list out) (n tsrc trunc_k : Z) (x : Z * Z * Z * list out) : bool :=
-  let '(i, s, e, l) := x in
-  (0 <? trunc_k) && (i =? trunc_k - 1) && has_truncator tsrc l && interior_run_boundary rs n e
-  && cluster_boundary st0 rs e && mandatory_ok attrs st0 rs n s e.
 
 (* F22: a UAX #14 opportunity that is not a grapheme cluster boundary (e.g. between a space and a combining mark)
    at or inside the failing line: the wrapper drops that candidate and WrapNextLine returns a nil line *)
@@ -41,9 +36,8 @@ Definition c03_kind (c : case) (st0 st1 : store) (cl : call) : nat :=
   else
     let fl := c03_failing (k_attrs c) st0 (case_runs c) (case_n c) (case_tsrc c) (cl_dir cl) (cl_policy cl) (cl_trunc cl) 0 0
                           (call_lines cl) (call_line_widths cl) in
-    let is8 := f8_line (k_attrs c) st0 (case_runs c) (case_n c) (case_tsrc c) (cl_trunc cl) in
     let is22 := f22_line (k_attrs c) (case_n c) in
-    (* every failing line must match one of the narrow predicates *)
-    if forallb (fun x => is8 x || is22 x) fl then (if existsb is8 fl then 11%nat else 12%nat) else 3%nat.
+    (* every failing line must match the narrow predicate *)
+    if forallb is22 fl then 12%nat else 3%nat.
 
 Definition check_all (cs : list case) : list (nat * nat) := check_from c03_kind 0 cs.
